@@ -894,8 +894,12 @@ def lm_named(col, w):
             first_dfs = w.real_of(dfs[name]) if dfs[name] is not model else real
             if first_bfs is first_dfs:
                 if lm is not first_bfs:
-                    lm_violation(col, w, "named-layers", "%s.named_layers[%r] is the first layer of that name" % (var, name),
+                    real.__dict__.pop("named_layers", None)   # classification only (see above)
+                    stale = real.named_layers.get(name) is first_bfs
+                    lm_violation(col, w, "named-layers-stale-cache" if stale else "named-layers",
+                                 "%s.named_layers[%r] is the first layer of that name" % (var, name),
                                  "another mapping", "the first")
+                    break
             else:
                 col.count("named-layers-first-ambiguous")
                 if not any(lm is o for o in ok_objs):
